@@ -265,6 +265,21 @@ func runC05(c *Ctx) {
 		}
 		c.Min(rSec, "section printers", ns, 9)
 	}
+	// ---- a module-level function export is left out only when the same (name, function) pair is printed inline
+	if pe := p.MustFunc("export-elision", pp, "watPrinter.printExport"); pe != nil {
+		nArm := 0
+		for _, sw := range FindSwitches(pe, func(ast.Expr) bool { return true }) {
+			for _, arm := range SwitchArms(info, sw) {
+				for _, k := range arm.Consts {
+					if k.Name == "FUNC" {
+						nArm++
+						exportSkipPredicate(c, p, pp, arm, "export-elision")
+					}
+				}
+			}
+		}
+		c.Min("export-elision", "printExport FUNC arm", nArm, 1)
+	}
 	_ = constant.MakeBool
 	_ = token.NoPos
 }
